@@ -130,6 +130,7 @@ public:
 
     //! \brief Returns the next best point to compute, returns empty vector if no points are available.
     std::vector<double> next(size_t remaining_budget){
+        if (remaining_budget == 0) return std::vector<double>(); // the budget is exhausted, nothing can be started
         size_t this_batch = std::min(remaining_budget, num_batch);
         size_t i = 0;
         while((i < num_candidates) && (status[i] != free)) i++;
